@@ -78,6 +78,8 @@ PURE = {
     "longest_dimension_first", "spinn5_eth_coords", "spinn5_local_eth_coord",
     "spinn5_chip_coord", "spinn5_fpga_link",
 }
+# allocation / call site -> the expression there (most recent analysis)
+SITES = {}
 _MUTABLE_CTORS = {"set", "list", "dict", "deque", "defaultdict",
                   "OrderedDict", "bytearray", "Counter"}
 _ITEMS = {"iteritems": "items", "items": "items", "viewitems": "items",
@@ -1070,8 +1072,10 @@ class Terms(object):
         return ("callv", ft, args, kws, self._site(e))
 
     def _site(self, e):
-        return "%s:%s" % (getattr(e, "lineno", 0), getattr(e, "col_offset",
+        site = "%s:%s" % (getattr(e, "lineno", 0), getattr(e, "col_offset",
                                                            0))
+        SITES[site] = e
+        return site
 
     def _inline(self, e, ft, args, kws, node):
         callee = None
